@@ -98,6 +98,13 @@ def _t(v):
     return v
 
 
+def _se(v):
+    """split_every from JSON: int, None, or a dict {axis: k} (JSON keys are strings)."""
+    if isinstance(v, dict):
+        return {int(k): int(x) for k, x in v.items()}
+    return v
+
+
 def _fn(ns, name):
     f = getattr(ns, name, None)
     if f is None:
@@ -202,14 +209,14 @@ def _apply(name, ns, is_np, a, p):
                 kw["ddof"] = p.get("correction", 0)
             return getattr(np, name)(a[0], **kw)
         if p.get("split_every") is not None:
-            kw["split_every"] = p["split_every"]
+            kw["split_every"] = _se(p["split_every"])
         if name in ("var", "std"):
             kw["correction"] = p.get("correction", 0)
         return _fn(ns, name)(a[0], **kw)
     if name in ("argmax", "argmin"):
         kw = dict(axis=p["axis"], keepdims=bool(p["keepdims"]))
         if not is_np and p.get("split_every") is not None:
-            kw["split_every"] = p["split_every"]
+            kw["split_every"] = _se(p["split_every"])
         return _fn(ns, name)(a[0], **kw)
     if name in ("cumulative_sum", "cumulative_prod"):
         if is_np:
@@ -641,8 +648,19 @@ def _axis(rng, ndim, allow_none=True, allow_tuple=True, allow_neg=True):
     return a
 
 
-def _split_every(rng):
-    return rng.choice([None, None, 2, 2, 3, 4, 5, 8])
+def _split_every(rng, ndim=None, axis=None):
+    """None, an integer (0 and 1 included: cubed coerces integers to a fan-in >= 2), or -- when the reduced axes
+    are given -- a dict {normalised axis: k} with k in 2..5 for some of them (missing axes default to 2)."""
+    if ndim and rng.random() < 0.25:
+        if axis is None:
+            axes = list(range(ndim))
+        elif isinstance(axis, int):
+            axes = [axis % ndim]
+        else:
+            axes = [a % ndim for a in axis]
+        keys = [a for a in axes if rng.random() < 0.7] or axes[:1]
+        return {str(a): rng.randint(2, 5) for a in keys}
+    return rng.choice([None, None, 0, 1, 2, 2, 3, 4, 5, 8])
 
 
 # every family function returns the id of the new value or None when not applicable -------------------
@@ -725,7 +743,8 @@ def g_reduce(g):
     if x is None:
         return None
     v = g.val(x)
-    p = {"axis": _axis(rng, v.ndim), "keepdims": rng.random() < 0.35, "split_every": _split_every(rng)}
+    ax_ = _axis(rng, v.ndim)
+    p = {"axis": ax_, "keepdims": rng.random() < 0.35, "split_every": _split_every(rng, v.ndim, ax_)}
     if name in ("var", "std"):
         p["correction"] = rng.choice([0, 0, 1])
     return g.add("reduce", name, [x], p)
